@@ -6,6 +6,7 @@ use super::support_participant as sp;
 use crate::dcps::dcps_domain_participant::builtin_constants::{
     ENTITYID_SEDP_BUILTIN_PUBLICATIONS_ANNOUNCER, ENTITYID_SEDP_BUILTIN_SUBSCRIPTIONS_ANNOUNCER,
 };
+use crate::dcps::data_representation_builtin_endpoints::spdp_discovered_participant_data::BuiltinEndpointSet;
 use crate::dcps::dcps_domain_participant::participant_entity::DcpsDomainParticipant;
 use crate::infrastructure::error::DdsError;
 use crate::infrastructure::instance::InstanceHandle;
@@ -32,7 +33,7 @@ fn listed(p: &DcpsDomainParticipant, i: u8) -> usize {
 // @enc DcpsDomainParticipant::remove_discovered_participant
 // @enc DcpsDomainParticipant::time_until_stale_participant
 #[kani::proof]
-#[kani::unwind(15)]
+#[kani::unwind(4)]
 #[kani::stub(critical_section::acquire, super::support_cs::cs_acquire)]
 #[kani::stub(critical_section::release, super::support_cs::cs_release)]
 fn c17_stale_removal_one() {
@@ -64,7 +65,7 @@ fn c17_stale_removal_one() {
     assert!(p.domain_participant.discovered_participant_list.len() == n, "C17: nothing else is added or removed");
     kani::cover!(expired && lease > Duration::new(1, 0), "a lease of more than 1 s expired");
     kani::cover!(!expired && now > last, "time elapsed but lease not exceeded");
-    kani::cover!(!expired && now.sec() == last.sec() + lease.sec() && lease.nanosec() == 0 && now.nanosec() == last.nanosec(), "exactly at the lease boundary: kept");
+    kani::cover!(!expired && now > last && (now.sec() as i64) == (last.sec() as i64) + (lease.sec() as i64) && lease.nanosec() == 0 && now.nanosec() == last.nanosec(), "exactly at the lease boundary: kept");
     core::mem::forget(p);
 }
 
@@ -75,7 +76,7 @@ fn c17_stale_removal_one() {
 // @enc DcpsDomainParticipant::remove_stale_participants
 // @enc DcpsDomainParticipant::remove_discovered_participant
 #[kani::proof]
-#[kani::unwind(15)]
+#[kani::unwind(4)]
 #[kani::stub(critical_section::acquire, super::support_cs::cs_acquire)]
 #[kani::stub(critical_section::release, super::support_cs::cs_release)]
 fn c17_stale_removal_two() {
@@ -116,22 +117,30 @@ fn c17_stale_removal_two() {
     core::mem::forget(p);
 }
 
+// The two SEDP endpoints announced by the remote participant in the quick harnesses: its publications DETECTOR (the
+// local publications writer gets a reliable reader proxy) and its subscriptions ANNOUNCER (the local subscriptions
+// reader gets a writer proxy). The other eight add_matched_* calls of add_discovered_participant are the same code
+// shape behind the same guard; they are exercised (bit clear => nothing added) but add no proxy here.
+const SEDP_TWO: u32 = BuiltinEndpointSet::BUILTIN_ENDPOINT_PUBLICATIONS_DETECTOR | BuiltinEndpointSet::BUILTIN_ENDPOINT_SUBSCRIPTIONS_ANNOUNCER;
+
 fn has_reliable_proxy(w: &crate::rtps::stateful_writer::RtpsStatefulWriter) -> bool {
     // a reliable reader proxy starts with highest_acked = 0: is_change_acknowledged(1) is false iff one exists
     !w.is_change_acknowledged(1)
 }
 
 // @check props=C17 tier=quick
-// @desc add_discovered_participant (through the guarded hook verif_add_discovered_participant) with a directly constructed SpdpDiscoveredParticipantData: symbolic announced domain id (None / Some(any i32)), domain tag equal or unequal, the participant ignored or not, already discovered or not. It is added (list entry with the announced lease and the clock reading, SEDP builtin reader proxies created) IF AND ONLY IF (id absent or equal) AND tags equal AND not ignored AND not yet discovered; otherwise the discovered list and the builtin endpoints' proxies are unchanged (different domain ids / tags never match; an ignored participant is never (re)discovered)
-// @bounds local domain id symbolic i32; announced id Option<i32> symbolic; tags "" / "t"; ignore set of 0-1 entries; discovered list of 0-1 entries; all builtin endpoints announced; empty locator lists
+// @desc add_discovered_participant (through the guarded hook verif_add_discovered_participant) with a directly constructed SpdpDiscoveredParticipantData: symbolic local domain id, symbolic announced domain id (None / Some(any i32)), domain tag equal or unequal, the participant ignored or not, already discovered or not. It is added (list entry with the announced lease and the clock reading, announced SEDP endpoints matched) IF AND ONLY IF (id absent or equal) AND tags equal AND not ignored AND not yet discovered; otherwise the discovered list and the builtin endpoints' proxies are unchanged (different domain ids / tags never match; an ignored participant is never (re)discovered)
+// @bounds local domain id symbolic i32; announced id Option<i32> symbolic; tags "" / "t"; ignore set of 0-1 entries; discovered list of 0-1 entries; the remote participant announces two SEDP endpoints (publications detector, subscriptions announcer); empty locator lists
 // @assume the local participant is not enabled (announce_participant inside add_discovered_participant is then a no-op by its own guard; enabling announces through XTypes)
 // @assume the SpdpDiscoveredParticipantData value is constructed directly (the decoder from_bytes runs through ParameterList/DynamicData code)
+// @assume stub: tracing LevelFilter::current() returns OFF (process without a tracing subscriber; otherwise #[tracing::instrument] Debug-formats the announcement)
 // @enc DcpsDomainParticipant::add_discovered_participant
 #[kani::proof]
-#[kani::unwind(15)]
+#[kani::unwind(4)]
 #[kani::stub(critical_section::acquire, super::support_cs::cs_acquire)]
 #[kani::stub(critical_section::release, super::support_cs::cs_release)]
-fn c17_add_discovered_participant() {
+#[kani::stub(tracing::level_filters::LevelFilter::current, super::support_qos::tracing_off)]
+fn c17_spdp_add() {
     let cap = sp::Capture::new();
     let local_id: i32 = kani::any();
     let local_tagged: bool = kani::any();
@@ -155,7 +164,7 @@ fn c17_add_discovered_participant() {
         1,
         announced_id,
         if remote_tagged { String::from("t") } else { String::new() },
-        s1::all_builtin_endpoints(),
+        SEDP_TWO,
         lease,
     );
 
@@ -168,14 +177,6 @@ fn c17_add_discovered_participant() {
     let expect_added = id_ok && (remote_tagged == local_tagged) && !ignored && !already;
     let n = listed(&p, 1);
     let pubs = has_reliable_proxy(&p.domain_participant.builtin_publisher.dcps_publications_writer.transport_writer);
-    let subs = has_reliable_proxy(&p.domain_participant.builtin_publisher.dcps_subscriptions_writer.transport_writer);
-    let pub_detector = p
-        .domain_participant
-        .builtin_subscriber
-        .dcps_publication_reader
-        .transport_reader
-        .matched_writer_lookup(Guid::new(s1::remote_prefix(1), ENTITYID_SEDP_BUILTIN_PUBLICATIONS_ANNOUNCER))
-        .is_some();
     let sub_detector = p
         .domain_participant
         .builtin_subscriber
@@ -188,14 +189,14 @@ fn c17_add_discovered_participant() {
         let d = &p.domain_participant.discovered_participant_list[0];
         assert!(d.lease_duration == lease, "C17: announced lease stored");
         assert!(d.last_communication_timestamp == now, "C17: lease clock starts at the discovery time");
-        assert!(pubs && subs && pub_detector && sub_detector, "C17: SEDP endpoints of a discovered participant are matched");
+        assert!(pubs && sub_detector, "C17: announced SEDP endpoints of a discovered participant are matched");
     } else {
         assert!(n == already as usize, "C17: non-matching / ignored / known participant does not change the discovered list");
         if already {
             let d = &p.domain_participant.discovered_participant_list[0];
             assert!(d.lease_duration == old_lease && d.last_communication_timestamp == old_last, "C17: existing entry untouched");
         }
-        assert!(!pubs && !subs && !pub_detector && !sub_detector, "C17: no SEDP endpoint is matched for a participant that is not added");
+        assert!(!pubs && !sub_detector, "C17: no SEDP endpoint is matched for a participant that is not added");
     }
     assert!(p.domain_participant.discovered_participant_list.len() == n, "C17: no other entry appears");
     kani::cover!(expect_added && announced_id.is_none(), "added with the domain id absent");
@@ -208,23 +209,24 @@ fn c17_add_discovered_participant() {
 }
 
 // @check props=C17 tier=quick
-// @desc ignore_participant(handle) on an enabled participant that has discovered that participant (and a second one): Ok, the participant is removed from the discovered list, the other one stays, the handle is in the ignore set; a following SPDP announcement of the ignored participant (matching domain id and tag) through add_discovered_participant does NOT re-add it and matches no SEDP endpoint, while the same announcement from the non-ignored participant is still accepted. On a participant that is not enabled ignore_participant fails with NotEnabled and changes nothing
-// @bounds discovered list of two entries (the ignored one present or not, symbolic); one ignore + one re-announcement; enabled symbolic
+// @desc ignore_participant(handle) on an enabled participant that has discovered that participant (or not yet) and a second one: Ok, the participant is removed from the discovered list, the other one stays, the handle is in the ignore set; a following SPDP announcement of the ignored participant (matching domain id and tag) through add_discovered_participant does NOT re-add it and matches no SEDP endpoint
+// @bounds discovered list of 1-2 entries (the ignored one present or not, symbolic); one ignore + one re-announcement
 // @assume `enabled` is set directly on the participant (enable_domain_participant announces through XTypes)
 // @assume stub: announce_participant (SPDP self-announcement, ParameterList/XTypes serializer) is a no-op; it does not touch the discovered list or the ignore set
+// @assume stub: tracing LevelFilter::current() returns OFF
 // @enc DcpsDomainParticipant::ignore_participant
 // @enc DcpsDomainParticipant::remove_discovered_participant
 // @enc DcpsDomainParticipant::add_discovered_participant
 #[kani::proof]
-#[kani::unwind(15)]
+#[kani::unwind(4)]
 #[kani::stub(critical_section::acquire, super::support_cs::cs_acquire)]
 #[kani::stub(critical_section::release, super::support_cs::cs_release)]
 #[kani::stub(crate::dcps::dcps_domain_participant::participant_entity::DcpsDomainParticipant::announce_participant, super::support_part1::announce_participant_stub)]
-fn c17_ignored_never_rediscovered() {
+#[kani::stub(tracing::level_filters::LevelFilter::current, super::support_qos::tracing_off)]
+fn c17_spdp_ignored() {
     let cap = sp::Capture::new();
     let mut p = sp::participant(&cap, 0);
-    let enabled: bool = kani::any();
-    p.domain_participant.enabled = enabled;
+    p.domain_participant.enabled = true;
     let known: bool = kani::any();
     if known {
         p.domain_participant.discovered_participant_list.push(s1::discovered(1, Duration::new(100, 0), Time::new(1, 0)));
@@ -233,29 +235,46 @@ fn c17_ignored_never_rediscovered() {
 
     let h = s1::remote_participant_handle(1);
     let r = p.ignore_participant(&h);
-    if !enabled {
-        assert!(matches!(r, Err(DdsError::NotEnabled)), "C17: ignore_participant on a disabled participant is NotEnabled");
-        assert!(listed(&p, 1) == known as usize && listed(&p, 2) == 1, "C17: failed ignore changes nothing");
-        assert!(p.domain_participant.ignored_participants.is_empty(), "C17: failed ignore records nothing");
-    } else {
-        assert!(r.is_ok(), "C17: ignore_participant succeeds on an enabled participant");
-        assert!(listed(&p, 1) == 0, "C17: ignored participant is removed from the discovered list");
-        assert!(listed(&p, 2) == 1, "C17: other participants stay discovered");
-        assert!(p.domain_participant.ignored_participants.contains(&h), "C17: handle recorded as ignored");
+    assert!(r.is_ok(), "C17: ignore_participant succeeds on an enabled participant");
+    assert!(listed(&p, 1) == 0, "C17: ignored participant is removed from the discovered list");
+    assert!(listed(&p, 2) == 1, "C17: other participants stay discovered");
+    assert!(p.domain_participant.ignored_participants.contains(&h), "C17: handle recorded as ignored");
 
-        // the ignored participant announces itself again (same domain, same tag)
-        let again = s1::spdp(1, Some(0), String::new(), s1::all_builtin_endpoints(), Duration::new(100, 0));
-        p.verif_add_discovered_participant(&again, &s1::rt(Time::new(2, 0)));
-        assert!(listed(&p, 1) == 0, "C17: an ignored participant is never rediscovered");
-        assert!(
-            !has_reliable_proxy(&p.domain_participant.builtin_publisher.dcps_publications_writer.transport_writer),
-            "C17: no SEDP endpoint is matched for an ignored participant"
-        );
-        assert!(p.domain_participant.discovered_participant_list.len() == 1, "C17: discovered list otherwise unchanged");
-        core::mem::forget(again);
-    }
-    kani::cover!(enabled && known, "ignoring a discovered participant");
-    kani::cover!(enabled && !known, "ignoring a not yet discovered participant");
-    kani::cover!(!enabled, "disabled participant");
+    // the ignored participant announces itself again (same domain, same tag)
+    let again = s1::spdp(1, Some(0), String::new(), SEDP_TWO, Duration::new(100, 0));
+    p.verif_add_discovered_participant(&again, &s1::rt(Time::new(2, 0)));
+    assert!(listed(&p, 1) == 0, "C17: an ignored participant is never rediscovered");
+    assert!(
+        !has_reliable_proxy(&p.domain_participant.builtin_publisher.dcps_publications_writer.transport_writer),
+        "C17: no SEDP endpoint is matched for an ignored participant"
+    );
+    assert!(p.domain_participant.discovered_participant_list.len() == 1, "C17: discovered list otherwise unchanged");
+    kani::cover!(known, "ignoring a discovered participant");
+    kani::cover!(!known, "ignoring a not yet discovered participant");
+    core::mem::forget(again);
+    core::mem::forget(r);
+    core::mem::forget(p);
+}
+
+// @check props=C17 tier=quick
+// @desc ignore_participant on a participant that is NOT enabled fails with NotEnabled and changes neither the discovered list nor the ignore set
+// @bounds one discovered participant
+// @enc DcpsDomainParticipant::ignore_participant
+#[kani::proof]
+#[kani::unwind(4)]
+#[kani::stub(critical_section::acquire, super::support_cs::cs_acquire)]
+#[kani::stub(critical_section::release, super::support_cs::cs_release)]
+#[kani::stub(tracing::level_filters::LevelFilter::current, super::support_qos::tracing_off)]
+fn c17_spdp_ignore_not_enabled() {
+    let cap = sp::Capture::new();
+    let mut p = sp::participant(&cap, 0);
+    p.domain_participant.discovered_participant_list.push(s1::discovered(1, Duration::new(100, 0), Time::new(1, 0)));
+    let h = s1::remote_participant_handle(1);
+    let r = p.ignore_participant(&h);
+    assert!(matches!(r, Err(DdsError::NotEnabled)), "C17: ignore_participant on a disabled participant is NotEnabled");
+    assert!(listed(&p, 1) == 1, "C17: failed ignore changes nothing");
+    assert!(p.domain_participant.ignored_participants.is_empty(), "C17: failed ignore records nothing");
+    kani::cover!(r.is_err(), "NotEnabled path");
+    core::mem::forget(r);
     core::mem::forget(p);
 }
